@@ -22,8 +22,8 @@ RULE = ("mesh: B-spline/NURBS surfaces of degree 1..3 (structured knot vectors, 
         "L-shaped polygonal trims (generic and grid-aligned), two trims, reversed sense, one spline trim; container: 1..3 surfaces, "
         "with/without container delta, 1 or 2 processes; export: OBJ / OFF / ASCII STL / binary STL, string and file writers, single "
         "surfaces and containers of 1..3 surfaces, with and without a preceding container tessellation; non-trivial = the "
-        "implementation returned a mesh with at least 2 cells per direction (mesh/quad), at least one omitted and one kept cell "
-        "(trim), more than one surface (container/export); distinct by case hash")
+        "implementation returned a mesh with at least 8 faces (mesh) / 4 quads (quad), a trimmed mesh that differs from the "
+        "untrimmed one (trim), more than one surface (container/export); distinct by case hash")
 ASSUMPTIONS = ["knot vectors are clamped and normalised to [0,1] (geomdl's default normalize_kv=True): the tessellator's uv step 1/(size-1) assumes this domain",
                "floating point rounding below 1e-9 is not observable; float32 rounding of binary STL below 1e-6",
                "generic trims have vertices off every grid line (odd multiples of 1/256 plus a random 30-bit dyadic offset), so that no float predicate is evaluated at an exact tie",
@@ -227,7 +227,7 @@ def divisors_common(rng, maxsize):
 class Mesh(Family):
     name = "mesh"
     imports = ("Model.Basis", "Model.Knots", "Model.Eval", "Model.Geom2D", "Model.Tess", "Run.TessH")
-    count = {"quick": 70, "thorough": 500}
+    count = {"quick": 70, "thorough": 400}
     has_oracle = True
     timeout = 120
 
@@ -237,7 +237,7 @@ class Mesh(Family):
         for i in range(n):
             su, sv, k = divisors_common(rng, maxsize if i % 4 else min(maxsize, 8))
             mode = rng.choice(["surface", "surface", "direct", "default"])
-            c = {"mode": mode, "su": su, "sv": sv, "k": k, "div": True}
+            c = {"mode": mode, "su": su, "sv": sv, "k": k, "div": True, "big_coq": i % 16 == 3}
             r = rng.random()
             if mode == "default":
                 c["k"] = 1
@@ -279,6 +279,8 @@ class Mesh(Family):
         npts = c.get("npts", su * sv)
         a = (su - 1) // k + 1 if k else 0
         b = (sv - 1) // k + 1 if k else 0
+        if a * b > 320 and not c.get("big_coq"):
+            return None        # large meshes: Coq would parse > 50 KB of literals per case; the exact oracle still runs on them
         fn = "make_triangle_mesh" if a * b <= 200 else "plain_mesh"
         m = "(%s %d %d %d %d)" % (fn, npts, su, sv, k)
         if "ok" in out:
@@ -341,7 +343,7 @@ class Mesh(Family):
 class Quad(Family):
     name = "quad"
     imports = ("Model.Basis", "Model.Knots", "Model.Eval", "Model.Geom2D", "Model.Tess", "Run.TessH")
-    count = {"quick": 30, "thorough": 250}
+    count = {"quick": 30, "thorough": 200}
     has_oracle = True
     timeout = 120
 
@@ -353,7 +355,7 @@ class Quad(Family):
             if i % 3 == 0:
                 su, sv = rng.randint(2, 6), rng.randint(2, 6)
             mode = rng.choice(["surface", "direct"])
-            c = {"mode": mode, "su": su, "sv": sv, "valid": True}
+            c = {"mode": mode, "su": su, "sv": sv, "valid": True, "big_coq": i % 16 == 5}
             if mode == "direct":
                 c["npts"] = su * sv
                 if rng.random() < 0.12:
@@ -383,6 +385,8 @@ class Quad(Family):
     def coq(self, c, out):
         su, sv = c["su"], c["sv"]
         npts = c.get("npts", su * sv)
+        if su * sv > 320 and not c.get("big_coq"):
+            return None
         m = "(make_quad_mesh %d %d %d)" % (npts, su, sv)
         if "ok" in out:
             o = out["ok"]
@@ -537,13 +541,13 @@ def make_trim(t):
 class Trim(Family):
     name = "trim"
     imports = ("Model.Basis", "Model.Knots", "Model.Eval", "Model.Geom2D", "Model.Tess", "Run.TessH")
-    count = {"quick": 30, "thorough": 160}
+    count = {"quick": 30, "thorough": 100}
     has_oracle = True
     timeout = 120
 
     def gen(self, rng, n):
         out = []
-        maxsize = 9 if n < 100 else 16
+        maxsize = 9 if n < 90 else 12
         for i in range(n):
             su, sv, k = divisors_common(rng, maxsize if i % 3 else 6)
             if (su - 1) // k < 2 and su + 2 * k <= maxsize:
@@ -704,13 +708,15 @@ class Trim(Family):
                     kept += 1
                     if abs(got - full) > full * F(1, 10 ** 6):
                         return "trim-region: cell (%d,%d) lies entirely outside the trimmed region but only %s of its area %s is tessellated" % (ci, cj, float(got), float(full))
-        c["_kept"], c["_omitted"] = kept, omitted
         if c["mode"] == "surface":
             return check_positions(ExactSurface(c["sp"]), o["uv"], o["data"])
         return None
 
     def nontrivial(self, c, out):
-        return "ok" in out and c.get("_kept", 0) > 0 and c.get("_omitted", 0) > 0
+        if "ok" not in out:
+            return False
+        a, b = (c["su"] - 1) // c["k"] + 1, (c["sv"] - 1) // c["k"] + 1
+        return len(out["ok"]["ids"]) != a * b or len(out["ok"]["faces"]) != 2 * (a - 1) * (b - 1)
 
     def stratum(self, c, out):
         return "%s/%s/%s/%s" % (c["mode"], c["shape"], "rev" if any(t["reversed"] for t in c["trims"]) else "std", "ok" if "ok" in out else "err")
@@ -734,13 +740,13 @@ def match_meshes(sizes, k, body):
 class Container(Family):
     name = "container"
     imports = ("Model.Basis", "Model.Knots", "Model.Eval", "Model.Geom2D", "Model.Tess", "Run.TessH")
-    count = {"quick": 24, "thorough": 200}
+    count = {"quick": 24, "thorough": 120}
     has_oracle = True
     timeout = 120
 
     def gen(self, rng, n):
         out = []
-        maxsize = 10 if n < 100 else 30
+        maxsize = 10 if n < 100 else 16
         for i in range(n):
             ns = rng.choice([1, 2, 2, 3, 3])
             su, sv, k = divisors_common(rng, maxsize)
@@ -905,13 +911,13 @@ def cross(a, b):
 class Export(Family):
     name = "export"
     imports = ("Model.Basis", "Model.Knots", "Model.Eval", "Model.Geom2D", "Model.Tess", "Run.TessH")
-    count = {"quick": 40, "thorough": 300}
+    count = {"quick": 40, "thorough": 160}
     has_oracle = True
     timeout = 120
 
     def gen(self, rng, n):
         out = []
-        maxsize = 8 if n < 100 else 24
+        maxsize = 8 if n < 100 else 11
         fmts = ["obj", "off", "stl", "stlb"]
         for i in range(n):
             fmt = fmts[i % 4]
